@@ -157,9 +157,11 @@ Definition is_initial_kind (k : skind) : bool := match k with KInitial => true |
      vt_initial   IInitialNotOneTrans, IInitTransCond, IInitTransEvent, IInitTransNoTarget, IInitTransNonChild
                                         <initial> has exactly one transition: no cond, no event, a target list of
                                         descendants of the parent state;
-     vt_history   IHistMulti, IHistNone, IHistCond, IHistEvent, IHistNoTarget, IHistDeepIllegal, IHistShallowIllegal
+     vt_history   IHistMulti, IHistNone, IHistCond, IHistEvent, IHistNoTarget, IHistDeepIllegal, IHistShallowIllegal,
+                  IHistPseudoTarget (patches/C19-history-default-pseudo-target.diff)
                                         <history> has exactly one transition: no cond, no event, a target list
-                                        of children (shallow) / descendants (deep) of the parent. *)
+                                        of children (shallow) / descendants (deep) of the parent, all of them
+                                        proper states (no <history>, no <initial>). *)
 Record VTree (t : tree) : Prop := {
   vt_nest : forall u k, In u (subtrees t) -> In k (t_kids u) -> kid_okb (t_kind u) (t_kind k) = true;
   vt_unique : NoDup (vsids_below t);
@@ -172,7 +174,8 @@ Record VTree (t : tree) : Prop := {
                   forall s, In s l -> In s (vsids_below p);
   vt_history : forall p h, In p (subtrees t) -> In h (t_kids p) -> is_hist_kind (t_kind h) = true ->
       exists x l, t_trans h = [x] /\ tt_targets x = Some l /\ tt_cond x = None /\ tt_event x = None /\
-                  forall s, In s l -> In s (if is_deep_kind (t_kind h) then vsids_below p else vsids_kids p)
+                  (forall s, In s l -> In s (if is_deep_kind (t_kind h) then vsids_below p else vsids_kids p)) /\
+                  (forall s, In s l -> In s (psids_below p))
 }.
 
 (* ------------------------------------------------------------------ side conditions of the legality theorem
@@ -195,7 +198,9 @@ Definition vb_pseudo_properb (sel : skind -> bool) (t : tree) : bool :=
                                              end) (t_trans h)
                       else true) (t_kids p)) (subtrees t).
 
-(* the default transition of a <history> names proper states (not a <history>, e.g. itself) *)
+(* the default transition of a <history> names proper states (not a <history>, e.g. itself).  No side condition any
+   more: it follows from validation since the check IHistPseudoTarget; kept to describe the witnesses against the
+   validator without that check (vv_hist_unchecked) *)
 Definition vb_default_properb : tree -> bool := vb_pseudo_properb is_hist_kind.
 (* the transition of an <initial> element names proper states *)
 Definition vb_initial_properb : tree -> bool := vb_pseudo_properb is_initial_kind.
@@ -207,7 +212,7 @@ Definition vb_hist_disjointb (t : tree) : bool :=
                     else true) (subtrees t).
 
 Definition vb_sideb (t : tree) : bool :=
-  ct_rootb t && vb_hist_parentb t && vb_default_properb t && vb_initial_properb t && vb_hist_disjointb t.
+  ct_rootb t && vb_hist_parentb t && vb_initial_properb t && vb_hist_disjointb t.
 
 (* ------------------------------------------------------------------ the hypotheses of the table-level lemmas
    (ValidateBridgeFlat.v, ValidateBridgePseudo.v), stated of the RESORTED tree (Chart.resort: <initial> children
